@@ -120,6 +120,7 @@ func (c *spliceInsert) Data() []byte {
 
 	if c.eventCancelIndicator {
 		bytes[4] |= 0x80
+		return bytes[:5] // nothing follows the cancel indicator
 	}
 
 	bytes[5] = 0x0F // reserved
@@ -150,7 +151,7 @@ func (c *spliceInsert) Data() []byte {
 		for _, component := range c.components {
 			componentBytes := make([]byte, 1)
 			componentBytes[0] = component.ComponentTag()
-			if c.spliceImmediate {
+			if !c.spliceImmediate {
 				componentBytes = append(componentBytes, spliceTimeBytes(component.HasPTS(), component.PTS())...)
 			}
 			componentsBytes = append(componentsBytes, componentBytes...)
